@@ -317,10 +317,15 @@ def _machine_class():
             Machine.__init__(self, ctx, buffer_size=buffer_size)
             self.mem = {}
             self.eth = {}       # Ethernet chip (x, y) -> its IP address
+            self.mute = set()   # chips whose sver is refused (fatal code)
+            self.no_ip = set()  # Ethernet chips whose info query is refused
 
         def cmd_31(self, q):
             # chip info: arg1 = cores | links << 8 | ... | ethernet up << 25;
             # payload 18 core states, local Ethernet chip, IP address
+            if (not is_sym(q.dest_x) and not is_sym(q.dest_y) and
+                    (int(q.dest_x), int(q.dest_y)) in self.no_ip):
+                return self.reply(q, rc=0x88)       # fatal: RC_CPU
             if (self.eth and not is_sym(q.dest_x) and not is_sym(q.dest_y)
                     and (int(q.dest_x), int(q.dest_y)) in self.eth):
                 x, y = int(q.dest_x), int(q.dest_y)
@@ -348,6 +353,9 @@ def _machine_class():
             return self.reply(q, args=args, data=bytes(n))
 
         def cmd_0(self, q):
+            if (not is_sym(q.dest_x) and not is_sym(q.dest_y) and
+                    (int(q.dest_x), int(q.dest_y)) in self.mute):
+                return self.reply(q, rc=0x88)       # fatal: RC_CPU
             name = b"SC&MP/SpiNNaker\0" + b"2.0.0\0"
             return self.reply(q, args=(0, (0xffff << 16) | self.buffer_size,
                                        0x5eed), data=name)
@@ -1376,7 +1384,7 @@ def h_conn_history(ctx, row, dims, root):
 
 
 @stoppable
-def h_discover(ctx, rows):
+def h_discover(ctx, rows, faults=False):
     """The real discover_connections() against a 12 x 12 machine of three
     boards whose Ethernet chips (0,0), (4,8), (8,4) answer with their IP
     address; afterwards a command to a symbolic chip travels over the
@@ -1394,7 +1402,19 @@ def h_discover(ctx, rows):
         sv = structs()[b"sv"]
         env.machine.mem[sv.base + sv[b"p2p_dims"].offset] = b"\x0c\x0c"
         env.machine.eth = {k: "10.0.%d.%d" % k for k in ETH}
-        ip = env.machine.eth
+        ip = dict(env.machine.eth)
+        bad = None
+        if faults:
+            # one of the two other boards does not tell its address, or its
+            # new connection does not answer the trial command: it is left
+            # out (and its chips are reached over the initial connection)
+            bad = ctx.pick([(4, 8), (8, 4)])
+            if ctx.choose(2):
+                env.machine.no_ip.add(bad)
+            else:
+                env.machine.mute.add(bad)
+            del ip[bad]
+            ctx.witness("board-left-out")
         mark = len(env.wire)
         outcome, found = "ok", []
         try:
@@ -1404,25 +1424,34 @@ def h_discover(ctx, rows):
             outcome = type(e).__name__ + ": " + str(e)[:200]
         keys = sorted((k for k in mc.connections if k is not None))
         ctx.observe(outcome, found, keys, mc._width, mc._height)
+        # (the refusals concern the discovery only)
+        env.machine.mute.clear()
+        env.machine.no_ip.clear()
         if not ctx.prove(outcome == "ok", "call-failed", outcome):
             return
-        ctx.prove(found == [3, 0][:times] and keys == sorted(ip) and
+        ctx.prove(found == [len(ip), 0][:times] and keys == sorted(ip) and
                   (mc._width, mc._height) == (w, h),
                   "discovery-wrong-result", (found, keys))
         # the trial command on each new connection goes over that connection
         trials = [(t, (int(q.dest_x), int(q.dest_y)))
                   for t, q in env.wire[mark:] if int(q.cmd) == 0 and
                   (int(q.dest_x), int(q.dest_y)) in ip]
-        ctx.prove(len(trials) == 3 and all(t == ip[c] for t, c in trials),
-                  "discovery-trial-not-over-new-connection", trials)
+        if not faults:
+            ctx.prove(len(trials) == 3 and all(t == ip[c] for t, c in trials),
+                      "discovery-trial-not-over-new-connection", trials)
+        else:
+            ctx.prove(all(t == ip[c] for t, c in trials),
+                      "discovery-trial-not-over-new-connection", trials)
         outcome, tags, nsent = _conn_call(ctx, env, mc, name, way, x, y)
         ctx.observe(name, outcome, nsent, tags)
         if not ctx.prove(outcome == "ok" and len(tags) == 1, "call-failed",
                          (name, outcome, tags)):
             return
         ctx.witness("local-board")
-        prove_all(ctx, _conn_items(tags[0], ex, ey, ip,
-                                   (tags[0], (x, y), (ex, ey), times)))
+        cur = {c: t for c, t in ip.items()}
+        prove_all(ctx, _conn_items(
+            "initial" if tags[0] not in cur.values() else tags[0], ex, ey,
+            cur, (tags[0], (x, y), (ex, ey), times, bad)))
 
 
 # saved context objects entered more than once: (object, blocks inside it,
@@ -1768,6 +1797,11 @@ def units(tier, seed):
         us.append(Unit("discover_connections 12x12, then chip in rows "
                        "%d..%d" % (rows[0], rows[-1]), h_discover,
                        dict(rows=rows), witnesses=("local-board",)))
+    for rows in ((0, 5), (6, 11)):
+        us.append(Unit("discover_connections 12x12 with a board that does "
+                       "not join, then chip in rows %d..%d" % rows,
+                       h_discover, dict(rows=rows, faults=True),
+                       witnesses=("local-board", "board-left-out")))
     for dims, root in machines:
         for row in range(12):
             us.append(Unit(
